@@ -23,6 +23,7 @@ COMMON_ASSUME = [
 ]
 
 from . import pure  # noqa: E402
+from . import nodesizes  # noqa: E402
 
 
 def custom(mod, assumptions=None):
@@ -46,6 +47,11 @@ PROPS = {
     "C09": dict(kind="prog", parts=[dict(target="comp", configs=["base", "dbg"])],
                 probes=dict(glob="targets/probes/*.cpp", configs=["base"]),
                 quick=q(6, 8000, 80), thorough=t(8, 100000, 80, 120), assumptions=COMMON_ASSUME),
+    "C10": dict(kind="prog", parts=[dict(target="cont", configs=["base", "dbg"])], extra=nodesizes.sweep,
+                rule=">= 1 cross-allocator copy/move assignment, swap or allocator-extended copy while both containers "
+                     "are non-empty and >= 20 insertions; for the generated-source node-size sweep every (container, "
+                     "size, alignment) triple is a case, non-trivial if the size is not a multiple of 8.",
+                quick=q(6, 3000, 80), thorough=t(8, 40000, 80, 120), assumptions=COMMON_ASSUME),
     "C11": dict(kind="prog", parts=[dict(target="obj", configs=["base", "dbg"])],
                 quick=q(6, 4000, 30), thorough=t(8, 60000, 30, 120), assumptions=COMMON_ASSUME),
     "C20": dict(kind="prog", parts=[dict(target="obj", configs=["base", "dbg"])],
